@@ -130,10 +130,16 @@ def check(tier, seed, replay=None):
         for policy in ("ignore", "panic", "stderr", "stdout"):
             for tail in (b'{"c": [1, 2', b'[1, 2', b'"abc', b'tru', b'{"a":', b'[{"a": "x'):
                 plans.append({"policy": policy, "argv": ["--on-error=" + policy], "stdin": hexs(b'{"a": 1}\n' + tail), "regions": 1, "invalid": False, "mode": "normal", "nvals": 1})
+        # a string that is not UTF-8 is one malformed value among the others: reported by the policy, not the end of the run
+        for policy in ("ignore", "panic", "stderr", "stdout"):
+            for bad in (b'"caf\xe9"', b'["x\xff"]', b'{"k\xc3": 1}'):
+                plans.append({"policy": policy, "argv": ["--on-error=" + policy], "stdin": hexs(b'{"a": 1}\n' + bad + b'\n2\n'), "regions": 1, "invalid": False,
+                              "mode": "normal", "nvals": 2})
         # rows longer than the buffer of standard output (a failed write of such a row is not seen again by the flush at exit), with and without limits
         big = ('{"k": "%s"}\n' % ("x" * 3000)).encode() * 3
         for mode in ("normal", "closed", "full"):
-            for argv in ([], ["--take=1"], ["--skip=1", "--take=1"], ["--sort-by=.k", "--take=1"], ["--take=2", "--output-style=text"], ["--merge"]):
+            for argv in ([], ["--take=1"], ["--skip=1", "--take=1"], ["--sort-by=.k", "--take=1"], ["--take=2", "--output-style=text"], ["--merge"], ["--sort-by=.k"],
+                         ["--sort-by=.k DESC", "--unique"], ["--group-by=.k"], ["--split-by=(push [] .)"]):
                 plans.append({"policy": "ignore", "argv": ["--on-error=ignore"] + argv, "stdin": hexs(big), "regions": 0, "invalid": False, "mode": mode, "nvals": 3})
         # all-garbage inputs on an unwritable stdout under --on-error=stdout (the diagnostics are the only output)
         for mode in ("closed", "full"):
